@@ -108,7 +108,13 @@ func runCheck(opt *Options) int {
 					results[i] = res
 				}
 			}()
+			if os.Getenv("VERIF_PROGRESS") != "" {
+				fmt.Fprintf(os.Stderr, "progress: start %s\n", ob.ID())
+			}
 			results[i] = w.runObligation(ob, opt.Debug)
+			if os.Getenv("VERIF_PROGRESS") != "" {
+				fmt.Fprintf(os.Stderr, "progress: done  %s queries=%d wall=%.1fs\n", ob.ID(), results[i].Stats.Queries, results[i].Wall.Seconds())
+			}
 		}(i, ob)
 	}
 	wg.Wait()
